@@ -814,6 +814,11 @@ func (r *Runner) finishStep(st *Step) {
 		}
 	}
 	if st.Pre != nil {
+		for v, sv := range st.Post.StVals {
+			if pv, ok := st.Pre.StVals[v]; ok && pv.IsBonded() && !sv.IsBonded() && !sv.Jailed {
+				r.Probe("lifecycle_validator_left_bonded_set_without_jailing")
+			}
+		}
 		// ... or whose record still held validator shares (rounding dust of positions that have left counts too)
 		for v, vi := range st.Pre.ValInfos {
 			if _, ok := st.Post.StVals[v]; ok {
@@ -1438,6 +1443,11 @@ func (r *Runner) govOp(ro *ROp, op *Op) func(ctx sdk.Context) (any, error) {
 				return nil, err
 			}
 			p.UnbondingTime = durField(f, "unbonding_ns", int64(p.UnbondingTime))
+			if v, ok := f["max_validators"]; ok {
+				if n, err := strconv.Atoi(v); err == nil && n > 0 {
+					p.MaxValidators = uint32(n)
+				}
+			}
 			msg := &stakingtypes.MsgUpdateParams{Authority: auth, Params: p}
 			ro.Msg = msg
 			return r.route(msg)(ctx)
